@@ -106,6 +106,79 @@ def _e2e_job(job):
     return dict(res=res.to_json(), cands=cands, outcomes=outs)
 
 
+def _perturb_job(job):
+    """n=4..6 end to end: a seeded base tableau (a valid stabilizer L|G_c> in graph-ish form, or a random matrix pair)
+    with k entries and one sign made symbolic - neighbourhoods that mix valid and invalid inputs"""
+    n, conn, k, seed, api, valid_base = job
+    rnd = random.Random(seed)
+    sc = loader.sym("stabilizer_circuits")
+    st = loader.sym("stabilizer")
+    if valid_base:
+        cls = rnd.randrange(coupling_spec.NCLASSES[n])
+        adj = tables.rep_graph(n, cls)
+        L = [spec.SIX[rnd.randrange(6)] for _ in range(n)]
+        Xb, Zb = spec.layered_graph_tableau(adj, L)
+        B = spec.random_invertible(n, rnd)
+        Xb, Zb = spec.change_basis(Xb, Zb, B)
+    else:
+        Xb = [[rnd.randrange(2) for _ in range(n)] for _ in range(n)]
+        Zb = [[rnd.randrange(2) for _ in range(n)] for _ in range(n)]
+    cells = rnd.sample([(t, q, g) for t in "xz" for q in range(n) for g in range(n)], k)
+    names = ["p%s%d_%d" % c for c in cells] + ["sg0"]
+    core.tt_setup(names)
+    sb = [rnd.randrange(2) for _ in range(n)]
+    cands = []
+
+    def build():
+        X = [row[:] for row in Xb]
+        Z = [row[:] for row in Zb]
+        for (t, q, g), nm in zip(cells, names):
+            (X if t == "x" else Z)[q][g] = var(nm)
+        signs = [var("sg0")] + sb[1:]
+        return X, Z, signs
+
+    def fn():
+        ctx = Ctx.cur
+        for m in pipeline.RESET_MODULES:
+            loader.reset_state(m)
+        X, Z, signs = build()
+        R, S = spec.to_symarrays(X, Z)
+        s = spec.make_stabilizer(st, R, S, phases=pipeline._sign_array(signs))
+        valid = spec.valid(X, Z)
+        try:
+            qc = sc.get_preparation_circuit(s, conn) if api == "prep" else sc.get_readout_circuit(s, conn)
+        except EXC as e:
+            ctx.prove("a valid stabilizer is served (raised %s)" % type(e).__name__, valid ^ 1)
+            return {"outcome": "raise:" + type(e).__name__}
+        gates = ztab.gates_of(qc)
+        if api == "prep":
+            ctx.prove("a request to prepare a non-stabilizer always raises", valid)
+            obs = []
+            for j in range(n):
+                back = ztab.pull(ztab.P([X[q][j] for q in range(n)], [Z[q][j] for q in range(n)], signs[j]), gates)
+                obs.append(land(lor_all(back.x) ^ 1, back.r ^ 1))
+            ctx.prove("a returned preparation circuit's output is stabilised by every given operator", land_all(obs))
+        else:
+            obs = []
+            for j in range(n):
+                f = ztab.push(ztab.P([X[q][j] for q in range(n)], [Z[q][j] for q in range(n)], 0), gates)
+                obs.append(lor_all(f.x) ^ 1)
+            ctx.prove("a returned readout circuit diagonalises every given operator", land_all(obs))
+        return {"outcome": "circuit"}
+    res = explore(fn, mode="fork")
+    for v in res.violations[:2]:
+        X, Z, signs = build()
+        Rm, Sm = spec.env_tableau(X, Z, v["model"])
+        cands.append(dict(kind="e2e", api=api, n=n, conn=conn, R=Rm, S=Sm, phases=[int(core.evaluate(l, v["model"])) if l not in (0, 1) else l for l in signs], label=v["label"]))
+    res.violations = []
+    outs = {}
+    for l in res.leaves:
+        if l:
+            outs[l.get("outcome")] = outs.get(l.get("outcome"), 0) + 1
+    res.leaves = []
+    return dict(res=res.to_json(), cands=cands, outcomes=outs)
+
+
 def _names_universe():
     names = {"all", "linear", "star", "cycle", "T", "Q", "E", "H", "ladder", "", "ALL", "Linear", "t", "q", "all ", "allx", "full", "ring"}
     for fn in os.listdir(tables.DATA_DIR):
@@ -155,8 +228,9 @@ def run(tier, seed):
     nv = 3 if tier == "quick" else 4
     ck.bounds += ["validate(): every pair of n x n binary matrices with every sign vector, n=2,3 complete%s" % (" and n=4 (a seeded 64 of 4096 partitions)" if tier == "thorough" else ""),
                   "end to end (prep and readout) on unconstrained tableaux: n=2 every matrix pair x sign vector; n=3: seeded %d of 4096 partitions per configuration" % (6 if tier == "quick" else 64),
+                  "end to end n=4..6: %d seeded neighbourhoods (base = valid stabilizer in a random basis or random matrix pair; 5 entries + 1 sign symbolic: 64 inputs each, mixing valid and invalid)" % (40 if tier == "quick" else 400),
                   "configuration gate: every public entry point x n in -1..8 x every name in a universe containing all data-file suffixes (incl. strays), case variants and foreign names"]
-    ck.outside += ["string inputs (reduced to matrices by C14)", "n>=4 unconstrained end-to-end inputs", "python -O (assert-based rejections disappear)"]
+    ck.outside += ["string inputs (reduced to matrices by C14)", "n>=4 unconstrained end-to-end inputs beyond the seeded neighbourhoods", "python -O (assert-based rejections disappear)"]
     jobs = [("v", (2, ()))]
     names3 = ["tx0_0", "tz0_0", "tx1_0", "tz1_0", "tx2_0", "tz2_0"]
     for bits in itertools.product([0, 1], repeat=6):
@@ -171,13 +245,18 @@ def run(tier, seed):
         for conn in ("all", "linear"):
             for _ in range(6 if tier == "quick" else 64):
                 jobs.append(("e", (3, conn, tuple((nm, rnd.randrange(2)) for nm in names12), api)))
+    for i in range(40 if tier == "quick" else 400):
+        n = 4 + (i % 3)
+        conn = rnd.choice([c for (nn, c) in ADVERTISED if nn == n])
+        jobs.append(("p", (n, conn, 5, seed * 7919 + i, "prep" if i % 2 else "readout", i % 4 < 2)))
     cands = []
     both = True
     outcomes = {}
     for job, r in harness.pmap(_dispatch, jobs, progress=50):
         res = core.Result.from_json(r["res"])
         kind, arg = job
-        ck.add(("validate n=%d" % arg[0]) if kind == "v" else ("end-to-end %s %d-%s" % (arg[3], arg[0], arg[1])), res, sample=1 if kind == "v" and not arg[1] else 0)
+        part = ("validate n=%d" % arg[0]) if kind == "v" else ("end-to-end %s %d-%s" % (arg[3], arg[0], arg[1])) if kind == "e" else ("end-to-end neighbourhoods %s n=%d" % (arg[4], arg[0]))
+        ck.add(part, res, sample=1 if kind == "v" and not arg[1] else 0)
         if kind == "v" and arg[0] == 2:
             both = both and r["both"]
         for k, v in r.get("outcomes", {}).items():
@@ -227,7 +306,7 @@ def run(tier, seed):
 
 
 def _dispatch(job):
-    return {"v": _validate_job, "e": _e2e_job}[job[0]](job[1])
+    return {"v": _validate_job, "e": _e2e_job, "p": _perturb_job}[job[0]](job[1])
 
 
 # ------------------------------------------------------------------------------------------------ replay
